@@ -301,3 +301,125 @@ def not_empty_string_edge(blk, mentions):
     if ce is None or ce[0] != 0:
         return None
     return ce[2]     # the edge where X != 0: strcmp differs / first character is not NUL
+
+
+def const_eval(n, env):
+    """value of an integer/pointer expression under env {decl id: int}; None when unknown"""
+    n = strip(n)
+    if n is None:
+        return None
+    if n.get('null'):
+        return 0
+    if 'v' in n.d and n.k != 'DeclRefExpr':
+        return n['v']
+    if n.k == 'DeclRefExpr':
+        if n['ref'].get('kind') == 'enum' and 'v' in n.d:
+            return n['v']
+        return env.get(n['ref'].get('id'))
+    if n.k == 'UnaryOperator':
+        v = const_eval(n.ch[0], env)
+        if v is None:
+            return None
+        return {'!': int(not v), '-': -v, '+': v, '~': ~v}.get(n['op'])
+    if n.k == 'BinaryOperator':
+        op = n['op']
+        a, b = const_eval(n.ch[0], env), const_eval(n.ch[1], env)
+        if op == '&&':
+            if a == 0 or b == 0:
+                return 0
+            return None if a is None or b is None else 1
+        if op == '||':
+            if (a is not None and a != 0) or (b is not None and b != 0):
+                return 1
+            return None if a is None or b is None else 0
+        if a is None or b is None:
+            return None
+        import operator as o
+        f = {'==': o.eq, '!=': o.ne, '<': o.lt, '>': o.gt, '<=': o.le, '>=': o.ge, '+': o.add, '-': o.sub}.get(op)
+        return int(f(a, b)) if f else None
+    return None
+
+
+def explore_paths(func, start, env, want, edge_ok=None, limit=4000, force=None):
+    """enumerate the paths from CFG position `start` to the function's exits under a constant environment that
+    is updated along each path (x = constant sets it, any other write to x forgets it) and prunes the branches
+    it decides.  Returns a list of paths, each the list of elements e with want(e) in execution order.
+    edge_ok(block, successor index) -> False drops paths through that edge; force {element id: (var, value)}
+    pins a variable right after that element (the outcome of a call under study)."""
+    out = []
+    count = [0]
+
+    def upd(env, e):
+        tgt = None
+        if e.k == 'BinaryOperator' and e.get('op') == '=' and strip(e.ch[0]).k == 'DeclRefExpr':
+            tgt = (decl_of(e.ch[0]) or {}).get('id')
+            v = const_eval(e.ch[1], env)
+        elif e.k == 'DeclStmt':
+            new = dict(env)
+            for d in e['decls']:
+                if d.get('init', -1) != -1:
+                    v = const_eval(func.nodes[d['init']], env)
+                    if v is None:
+                        new.pop(d['id'], None)
+                    else:
+                        new[d['id']] = v
+                else:
+                    new.pop(d['id'], None)
+            return new
+        elif e.k in ('CompoundAssignOperator',) or (e.k == 'UnaryOperator' and e.get('op') in ('++', '--')):
+            tgt = (decl_of(e.ch[0]) or {}).get('id')
+            v = None
+        elif e.k == 'CallExpr':
+            new = None
+            for a in e.ch[1:]:
+                sa = strip(a) if a is not None else None
+                if sa is not None and sa.k == 'UnaryOperator' and sa.get('op') == '&':
+                    d = decl_of(sa.ch[0])
+                    if d is not None and d['id'] in env:
+                        new = dict(new if new is not None else env)
+                        new.pop(d['id'], None)
+            return new if new is not None else env
+        else:
+            return env
+        if tgt is None:
+            return env
+        new = dict(env)
+        if v is None:
+            new.pop(tgt, None)
+        else:
+            new[tgt] = v
+        return new
+
+    def walk(b, i, env, events, seen):
+        count[0] += 1
+        if count[0] > limit:
+            return
+        key = (b, i, tuple(sorted(env.items())))
+        if key in seen:
+            return
+        seen = seen | {key}
+        blk = func.blocks[b]
+        for e in blk.elems[i:]:
+            if want(e):
+                events = events + [e]
+            env = upd(env, e)
+            if force and e.id in force:
+                env = dict(env)
+                env[force[e.id][0]] = force[e.id][1]     # e.g. "this search found nothing"
+            if e.k == 'ReturnStmt':
+                out.append(events)
+                return
+        succs = [(k, s) for k, (s, u) in enumerate(blk.all_succs) if s is not None and not u]
+        if blk.cond is not None and len(blk.all_succs) == 2:
+            v = const_eval(blk.cond, env)
+            if v is not None:
+                succs = [(k, s) for k, s in succs if k == (0 if v else 1)]
+        if not succs:
+            out.append(events)
+            return
+        for k, s in succs:
+            if edge_ok is not None and not edge_ok(blk, k):
+                continue
+            walk(s, 0, env, events, seen)
+    walk(start[0], start[1], dict(env), [], frozenset())
+    return out
